@@ -6,6 +6,7 @@ import SocVerif.Driver.EvD
 import SocVerif.Driver.RegD
 import SocVerif.Driver.SramD
 import SocVerif.Driver.ArbD
+import SocVerif.Driver.BridgeD
 
 def main (args : List String) : IO UInt32 := do
   match args with
@@ -18,4 +19,5 @@ def main (args : List String) : IO UInt32 := do
   | ["reg"] => RegD.main; return 0
   | ["sram"] => SramD.main; return 0
   | ["arbiter"] => ArbD.main; return 0
+  | ["bridge"] => BridgeD.main; return 0
   | _ => IO.eprintln "usage: driver <mux|mmap|...>"; return 2
